@@ -62,9 +62,15 @@ def run(ctx):
     ctx.add_tlc("negative control: consume without notify_all (must deadlock / lose a wake-up: D1)", r, negative=True)
     import checks.reloader_mc as rmc
     rmc.run(ctx, thorough)
+    r = vlib.tlc_expect_ok("ChannelCap", "ChannelCap_unbounded.cfg", workers=2)
+    ctx.add_tlc("ChannelCap.tla: the reloader is the only consumer and also a producer of cache messages (unbounded: never blocked, every call returns)", r)
+    if r.violated:
+        ctx.violation("C08/spec-channel", f"ChannelCap.tla violates {r.violated}", {"tlc": r.trace})
+    r = vlib.tlc_expect_violation("ChannelCap", "ChannelCap_bounded.cfg", "NeverBlocked", workers=2)
+    ctx.add_tlc("negative control: a bounded cache-message channel (the pass blocks sending to itself)", r, negative=True)
 
     runs = []
-    modes = ["plain", "cycle", "panic", "dropsender"]
+    modes = ["plain", "cycle", "panic", "dropsender", "burst"]
     seeds = range(ctx.seed, ctx.seed + (6 if thorough else 2))
     validated = 0
     for mode in modes:
